@@ -5,12 +5,12 @@ from ..evalprop import *
 
 PID = "C16"
 MANIFEST = {
-    "text": "Theorems about the closures obtained by loading the GENERATED text of prelude.lisp with the model reader and evaluator inside Coq: the prelude loads without error (kernel computation), and for ALL operand forms X, Y the control macros and / or / when / not expand to conditionals in which each operand occurs exactly where and as often as the documentation implies (each operand evaluated at most once, the second only when needed) - proved by symbolic evaluation of the macro bodies through the derived evaluator rules. A change of prelude.lisp regenerates the text and the loaded closures, so either the computed closure no longer matches the lemma about its body or the theorem fails. The list functions (map foldl foldr reverse zip length enumerate range append concat last init apply), the variadic arithmetic and comparisons are tied to their documented results by generated calls (lists of length 0..60 of mixed elements, native / closure / variadic / fixed-arity / signalling function arguments, operands with output side effects) run in the model and on the binary and checked against independent specification functions.",
+    "text": "Theorems about the closures obtained by loading the GENERATED text of prelude.lisp with the model reader and evaluator inside Coq: the prelude loads without error (kernel computation), and for ALL operand forms X, Y the control macros and / or / when / not and the catch / catch-all clauses of try expand to the documented forms, get-property-safe (through which every catch clause reads the kind of a signal) returns for EVERY key and EVERY value what the primitive . returns and nil whenever . signals, and and / or / when / not expand to conditionals in which each operand occurs exactly where and as often as the documentation implies (each operand evaluated at most once, the second only when needed) - proved by symbolic evaluation of the macro bodies through the derived evaluator rules. A change of prelude.lisp regenerates the text and the loaded closures, so either the computed closure no longer matches the lemma about its body or the theorem fails. The list functions (map foldl foldr reverse zip length enumerate range append concat last init apply), the variadic arithmetic and comparisons are tied to their documented results by generated calls (lists of length 0..60 of mixed elements, native / closure / variadic / fixed-arity / signalling function arguments, operands with output side effects) run in the model and on the binary and checked against independent specification functions.",
     "note": "The unbounded ('for every list') statements for the list functions are NOT theorems yet (only the tail-loop shape shared with C07 is proved for every list); they are validated by the differential check and the specification monitors. Trusted: Coq kernel; transcription of the evaluator; prelude text generated from the source.",
     "technique": "Coq symbolic evaluation of prelude macro bodies for all operands + kernel computation on the generated prelude + differential check against specification functions",
 }
 TARGETS = ["Properties/C16.v", "Eval/PreludeState.v"]
-IMPORTS = ["Eval.EvalRules", "Eval.PreludeState", "Eval.PreludeProofs", "Properties.C16"]
+IMPORTS = ["Eval.EvalRules", "Eval.PreludeState", "Eval.PreludeProofs", "Eval.CatchProofs", "Properties.C16"]
 THEOREMS = [
     ("C16_prelude_loads", "prelude_ok = true /\\ repl_ok = true /\\ debugger_ok = true"),
     ("C16_and_expansion", "forall X Y, macro_expands_to (s \"and\") [X; Y] (vec_to_list [vsym \"if\"; X; Y; nil_value])"),
@@ -19,6 +19,9 @@ THEOREMS = [
     ("C16_not_expansion", "forall X, macro_expands_to (s \"not\") [X] (vec_to_list [vsym \"if\"; X; nil_value; t_value])"),
     ("C16_catch_all_expansion", "forall B, macro_expands_within 3 (s \"catch-all\") [B] (vec_to_list [vsym \"test\"; t_value; vsym \"body\"; B])"),
     ("C16_catch_expansion", "forall K B, macro_expands_within 5 (s \"catch\") [K; B] (catch_clause K B)"),
+    ("C16_get_property_safe_value", "forall key pl v, dot_res pl key = ROk v -> gps_statement key pl v"),
+    ("C16_get_property_safe_signal", "forall key pl sg, dot_res pl key = RSig sg -> gps_statement key pl nil_value"),
+    ("C16_dot_is_the_primitive", "forall f st pl key env d, call_native (S f) st (s \".\") [pl; key] env d = (st, dot_res pl key)"),
 ]
 
 def lst(xs):
